@@ -312,6 +312,7 @@ type jEntry struct {
 	RemoteAppMids []string
 	RemoteAllMids []string
 	RemoteSecs    []jSec   // all sections of that remote description
+	RemoteGroup   *string  // its first session-level a=group value (nil = none)
 	PendingMids   []string // mids of the pending remote description, if any
 	Err           string
 }
@@ -366,13 +367,13 @@ func jNewTrack(kind string) webrtc.TrackLocal {
 	return t
 }
 
-func jRemoteMids(pc *webrtc.PeerConnection, forOffer bool) (app, all []string, secs []jSec) {
+func jRemoteMids(pc *webrtc.PeerConnection, forOffer bool) (app, all []string, secs []jSec, group *string) {
 	cur := pc.CurrentRemoteDescription()
 	pend := pc.PendingRemoteDescription()
 	var rd *webrtc.SessionDescription
 	if forOffer {
 		if cur == nil {
-			return nil, nil, nil
+			return nil, nil, nil, nil
 		}
 		rd = cur
 		if pend != nil {
@@ -385,11 +386,11 @@ func jRemoteMids(pc *webrtc.PeerConnection, forOffer bool) (app, all []string, s
 		}
 	}
 	if rd == nil {
-		return nil, nil, nil
+		return nil, nil, nil, nil
 	}
 	d, err := jProjectRemote(rd.SDP)
 	if err != nil {
-		return nil, nil, nil
+		return nil, nil, nil, nil
 	}
 	for _, s := range d.Secs {
 		all = append(all, s.Mid)
@@ -397,7 +398,7 @@ func jRemoteMids(pc *webrtc.PeerConnection, forOffer bool) (app, all []string, s
 			app = append(app, s.Mid)
 		}
 	}
-	return app, all, d.Secs
+	return app, all, d.Secs, d.Group
 }
 
 func jsepRun(c jCase) *jLog {
@@ -464,7 +465,7 @@ func jsepRun(c jCase) *jLog {
 		case "dc":
 			_, err = pc.CreateDataChannel("d", nil)
 		case "offer", "answer":
-			e.RemoteAppMids, e.RemoteAllMids, e.RemoteSecs = jRemoteMids(pc, op.Op == "offer")
+			e.RemoteAppMids, e.RemoteAllMids, e.RemoteSecs, e.RemoteGroup = jRemoteMids(pc, op.Op == "offer")
 			if pend := pc.PendingRemoteDescription(); pend != nil {
 				if pd, perr := jProjectRemote(pend.SDP); perr == nil {
 					for _, x := range pd.Secs {
